@@ -26,18 +26,23 @@ pub struct Case {
     pub entries: Vec<(Vec<u8>, u8, Repr)>,
     pub queries: Vec<Query>,
     pub builds: u8,
+    /// the target alphabet: the built-in amino codec, or a user-defined 7-/8-bit residue alphabet
+    #[serde(default)]
+    pub target: Option<CodecId>,
 }
 
-fn check<A: Cm>(case: &Case) -> PResult {
+fn check<A: Cm, B: Cm>(case: &Case) -> PResult {
     let sy = Syms::<A>::new()?;
-    let sa = Syms::<AminoC>::new()?;
+    let sa = Syms::<B>::new()?;
     let n = A::ID.name();
-    let aminos: Vec<u8> = model::AMINO_CANON.iter().map(|x| sa.m.parse_byte(x.0).unwrap()).collect();
+    // the 21 amino symbols in canonical order, or all symbols of the user-defined target alphabet
+    let aminos: Vec<u8> = if B::ID == CodecId::Amino { model::AMINO_CANON.iter().map(|x| sa.m.parse_byte(x.0).unwrap()).collect() } else { sa.m.codes() };
+    let na = aminos.len();
     // model: last insertion for a key wins (HashMap::insert semantics while the caller builds the map)
     let mut fwd: BTreeMap<Vec<u8>, u8> = BTreeMap::new();
     let mut key_repr: BTreeMap<Vec<u8>, Repr> = BTreeMap::new();
     for (k, a, r) in &case.entries {
-        fwd.insert(k.clone(), aminos[*a as usize % 21]);
+        fwd.insert(k.clone(), aminos[*a as usize % na]);
         key_repr.insert(k.clone(), r.clone());
     }
     let mut inv: BTreeMap<u8, Vec<Vec<u8>>> = BTreeMap::new();
@@ -48,22 +53,22 @@ fn check<A: Cm>(case: &Case) -> PResult {
     let builds = case.builds.max(1);
     for round in 0..=builds {
         // a fresh HashMap each round: std's RandomState gives a new iteration order every time
-        let mut map: HashMap<Seq<A>, AminoC> = HashMap::new();
-        let mut rows: Option<Vec<(Seq<A>, AminoC)>> = None;
+        let mut map: HashMap<Seq<A>, B> = HashMap::new();
+        let mut rows: Option<Vec<(Seq<A>, B)>> = None;
         if round == builds {
             // the documented calling form: an array of rows, in generated order, repeated keys included
             // (`HashMap::from([..])`: the last row for a key wins, like the model)
             let mut v = vec![];
             for (k, a, r) in &case.entries {
                 let key = build(&sy, &SeqSpec { codes: k.clone(), repr: r.clone() })?.into_seq();
-                v.push((key, sa.sym(aminos[*a as usize % 21])));
+                v.push((key, sa.sym(aminos[*a as usize % na])));
             }
             rows = Some(v);
         } else if round % 2 == 0 {
             // keys in their generated provenance (copied out of a longer sequence, truncated, edited, ...)
             for (k, a, r) in &case.entries {
                 let key = build(&sy, &SeqSpec { codes: k.clone(), repr: r.clone() })?.into_seq();
-                map.insert(key, sa.sym(aminos[*a as usize % 21]));
+                map.insert(key, sa.sym(aminos[*a as usize % na]));
             }
         } else if round % 4 == 1 {
             for (k, a) in fwd.iter().rev() {
@@ -75,9 +80,9 @@ fn check<A: Cm>(case: &Case) -> PResult {
                 map.insert(key, sa.sym(*a));
             }
         }
-        let table: CodonTable<A, AminoC> = match rows {
+        let table: CodonTable<A, B> = match rows {
             None => no_panic(&format!("from_map_panic/{n}"), "CodonTable::from_map", || CodonTable::from_map(map))?,
-            Some(v) => no_panic(&format!("from_map_panic/{n}"), "CodonTable::from_map([rows])", || from_rows::<A>(v))?,
+            Some(v) => no_panic(&format!("from_map_panic/{n}"), "CodonTable::from_map([rows])", || from_rows::<A, B>(v))?,
         };
         // forward lookups: every key and the generated queries
         let mut qs: Vec<Query> = case.queries.clone();
@@ -136,12 +141,12 @@ fn check<A: Cm>(case: &Case) -> PResult {
 
 /// `CodonTable::from_map([(codon, amino); N])` for the N at hand (N <= 24 is what the generator makes;
 /// longer inputs go through a HashMap built row by row, which has the same last-row-wins meaning)
-fn from_rows<A: Cm>(v: Vec<(Seq<A>, AminoC)>) -> CodonTable<A, AminoC> {
+fn from_rows<A: Cm, B: Cm>(v: Vec<(Seq<A>, B)>) -> CodonTable<A, B> {
     macro_rules! sized {
         ($($n:literal)*) => {
             match v.len() {
                 $($n => {
-                    let a: [(Seq<A>, AminoC); $n] = v.try_into().ok().expect("length matched");
+                    let a: [(Seq<A>, B); $n] = v.try_into().ok().expect("length matched");
                     CodonTable::from_map(a)
                 })*
                 _ => {
@@ -158,14 +163,17 @@ fn from_rows<A: Cm>(v: Vec<(Seq<A>, AminoC)>) -> CodonTable<A, AminoC> {
 }
 
 pub fn dispatch(case: &Case) -> PResult {
-    match case.codec {
-        CodecId::Dna => check::<DnaC>(case),
-        CodecId::Iupac => check::<IupacC>(case),
-        _ => fail!("harness", "codon codec must be Dna or Iupac"),
+    match (case.codec, case.target.unwrap_or(CodecId::Amino)) {
+        (CodecId::Dna, CodecId::Amino) => check::<DnaC, AminoC>(case),
+        (CodecId::Iupac, CodecId::Amino) => check::<IupacC, AminoC>(case),
+        (CodecId::Dna, CodecId::Oct) => check::<DnaC, OctC>(case),
+        (CodecId::Dna, CodecId::Sept) => check::<DnaC, SeptC>(case),
+        (CodecId::Iupac, CodecId::Oct) => check::<IupacC, OctC>(case),
+        _ => fail!("harness", "codon codec must be Dna or Iupac, target Amino, custom7 or custom8"),
     }
 }
 
-fn strat(id: CodecId, builds: u8) -> BoxedStrategy<Case> {
+fn strat(id: CodecId, target: CodecId, builds: u8) -> BoxedStrategy<Case> {
     let m = id.model();
     let key = (1..=4usize).prop_flat_map(move |l| vec(gen::code(m), l));
     // few distinct aminos so that 0, 1, 2 and 3+ preimages all occur
@@ -189,7 +197,7 @@ fn strat(id: CodecId, builds: u8) -> BoxedStrategy<Case> {
             let q = (near, gen::pre_flank(m), 0..3u8).prop_map(|(codes, pre, how)| Query { codes, pre, how });
             (Just(entries), vec(q, 1..=8))
         })
-        .prop_map(move |(entries, queries)| Case { codec: id, entries, queries, builds })
+        .prop_map(move |(entries, queries)| Case { codec: id, entries, queries, builds, target: Some(target) })
         .boxed()
 }
 
@@ -197,7 +205,12 @@ pub fn run(ctx: &mut Ctx) {
     let builds = ctx.pick(6, 40);
     for id in [CodecId::Dna, CodecId::Iupac] {
         let cases = ctx.cases(3000, 8);
-        ctx.forall(&format!("tables/{}", id.name()), cases, strat(id, builds), dispatch);
+        ctx.forall(&format!("tables/{}", id.name()), cases, strat(id, CodecId::Amino, builds), dispatch);
+    }
+    // the table type is generic in its target alphabet too: user-defined residue alphabets of 7 and 8 bits
+    for (id, target) in [(CodecId::Dna, CodecId::Oct), (CodecId::Dna, CodecId::Sept), (CodecId::Iupac, CodecId::Oct)] {
+        let cases = ctx.cases(800, 8);
+        ctx.forall(&format!("tables/{}_to_{}", id.name(), target.name()), cases, strat(id, target, builds), dispatch);
     }
     // the in-tree example table and the standard code as a custom table (all 64 codons -> 21 aminos)
     let mut entries = vec![];
@@ -213,7 +226,7 @@ pub fn run(ctx: &mut Ctx) {
     for (i, q) in [vec![], vec![0u8], vec![0, 1], vec![3, 2], vec![3, 2, 2, 0], vec![0, 0, 0, 0], vec![1, 1, 1, 3], vec![2, 0, 0, 0, 0]].into_iter().enumerate() {
         queries.push(Query { codes: q, pre: vec![2; i * 5 % 33], how: (i % 3) as u8 });
     }
-    ctx.each("standard_code_as_custom_table", vec![Case { codec: CodecId::Dna, entries, queries, builds: 20 }], dispatch);
+    ctx.each("standard_code_as_custom_table", vec![Case { codec: CodecId::Dna, entries, queries, builds: 20, target: None }], dispatch);
     ctx.require_class("ambiguous_amino");
     ctx.require_class("three_preimages");
     ctx.require_class("unique_amino");
